@@ -128,15 +128,29 @@ func (w *c04Worker) judge(toks []model.Tok, style model.Style) (v c04Verdict, de
 	return c04OK, "", gs, gl
 }
 
+// cause names the known irregularity that explains an accepted-ungrammatical
+// sequence, if any: the sequence is not in L(G) but the parser variant that lets
+// a multi-select list continue a projection accepts it.
+func c04Cause(toks []model.Tok, v c04Verdict) string {
+	if v != c04AcceptedUngrammatical {
+		return ""
+	}
+	if _, _, err := model.ParseListAfterProjection(toks); err == nil {
+		return "multiselect-after-projection"
+	}
+	return ""
+}
+
 // minimize deletes tokens (single tokens, contiguous windows of 2-3 tokens and
 // arbitrary pairs) while the same verdict persists: a small core of the mismatch.
 func (w *c04Worker) minimize(toks []model.Tok, style model.Style, want c04Verdict) []model.Tok {
 	cur := append([]model.Tok{}, toks...)
+	wantCause := c04Cause(toks, want)
 	try := func(cand []model.Tok) bool {
 		if len(cand) == 0 {
 			return false
 		}
-		if v, _, _, _ := w.judge(cand, style); v == want {
+		if v, _, _, _ := w.judge(cand, style); v == want && c04Cause(cand, v) == wantCause {
 			cur = cand
 			return true
 		}
@@ -179,9 +193,13 @@ func (w *c04Worker) report(r *harness.Run, toks []model.Tok, style model.Style, 
 	if gs {
 		exp = "Compile succeeds and the expression is usable (sentence of the grammar)"
 	}
+	sigKind := c04KindNames[v]
+	if c := c04Cause(core, v); c != "" {
+		sigKind = c
+	}
 	r.Report(harness.Violation{
 		Kind:      c04KindNames[v],
-		Signature: c04KindNames[v] + ":" + coreText,
+		Signature: sigKind + ":" + coreText,
 		Input:     map[string]interface{}{"expression": text, "tokens": coreText, "found_in": model.Spell(toks, style)},
 		Expected:  exp,
 		Observed:  coreDetail,
